@@ -169,11 +169,11 @@ func (n *Node) Render(st Style) string {
 }
 
 // Convenience constructors.
-func H(name string) *Node        { return &Node{Kind: Has, Name: name} }
-func E(name, v string) *Node     { return &Node{Kind: Eq, Name: name, Value: v} }
-func NE(name, v string) *Node    { return &Node{Kind: Ne, Name: name, Value: v} }
-func P(name, v string) *Node     { return &Node{Kind: Prefix, Name: name, Value: v} }
-func N(k *Node) *Node            { return &Node{Kind: Not, Kids: []*Node{k}} }
-func Par(k *Node) *Node          { return &Node{Kind: Paren, Kids: []*Node{k}} }
-func AndOf(ks ...*Node) *Node    { return &Node{Kind: And, Kids: ks} }
-func OrOf(ks ...*Node) *Node     { return &Node{Kind: Or, Kids: ks} }
+func H(name string) *Node     { return &Node{Kind: Has, Name: name} }
+func E(name, v string) *Node  { return &Node{Kind: Eq, Name: name, Value: v} }
+func NE(name, v string) *Node { return &Node{Kind: Ne, Name: name, Value: v} }
+func P(name, v string) *Node  { return &Node{Kind: Prefix, Name: name, Value: v} }
+func N(k *Node) *Node         { return &Node{Kind: Not, Kids: []*Node{k}} }
+func Par(k *Node) *Node       { return &Node{Kind: Paren, Kids: []*Node{k}} }
+func AndOf(ks ...*Node) *Node { return &Node{Kind: And, Kids: ks} }
+func OrOf(ks ...*Node) *Node  { return &Node{Kind: Or, Kids: ks} }
